@@ -355,7 +355,6 @@ func TestC20(t *testing.T) {
 	})
 }
 
-
 // TestC20Lag: a transport whose Close does not interrupt pending I/O at once (the
 // calls blocked in it fail 5 s later). Whatever the library does about the calls
 // that are still in flight, once Close / CloseNow has returned no goroutine it
